@@ -158,6 +158,10 @@ func drawScript(rt *rapid.T) sess.Script {
 		}
 	}
 	sess.DrawClock(rt, &sc, 8)
+	if rapid.IntRange(0, 7).Draw(rt, "inject?") == 0 {
+		// the server already knows an election id when the first session arrives
+		sc.Inject = &gen.ID128{Hi: halves[rapid.IntRange(0, len(halves)-1).Draw(rt, "inject-hi")], Lo: halves[rapid.IntRange(0, len(halves)-1).Draw(rt, "inject-lo")]}
+	}
 	return sc
 }
 
